@@ -176,7 +176,8 @@ class C16(CheckBase):
         for _ in range(nops):
             k = ch.weighted([(5, "write"), (2, "touch"), (1, "delete"),
                              (7, "render"), (3, "names"), (3, "use"),
-                             (2, "ctype"), (4, "load"), (1, "absload")], "op")
+                             (2, "ctype"), (4, "load"), (1, "absload"),
+                             (1, "pkgload")], "op")
             dt = ch.weighted([(3, 1.0), (2, 0.0), (2, 0.001), (1, 3600.0),
                               (1, -5.0), (1, 86400.0 * 400), (1, -0.001)],
                              "dt")
@@ -204,6 +205,11 @@ class C16(CheckBase):
                     (1, "missing.pt")], "spec")
                 ops.append(["load", spec, ch.pick(["render", "render",
                                                    "names", "none"])])
+            elif k == "pkgload":
+                ops.append(["pkgload", ch.pick([
+                    "chameleon.tests:inputs/hello_world.pt",
+                    "hello_world.pt", "chameleon.tests:inputs/hello_world.txt"
+                ])])
             else:
                 ops.append(["absload", ch.pick(all_paths)])
         faults = {}
@@ -213,7 +219,8 @@ class C16(CheckBase):
                 if ops[i][0] in ("render", "names", "use", "ctype", "load"):
                     faults[str(i)] = {"kind": ch.pick(["eio", "eio", "enoent"]),
                                       "nth": 1 + ch.choose(2)}
-        return {"dirs": dirs, "search_path": search,
+        pkg_path = ch.coin(0.3)
+        return {"dirs": dirs, "search_path": search, "pkg_path": pkg_path,
                 "default_extension": default_ext, "auto_reload": auto,
                 "files": files, "objects": objects, "ops": ops,
                 "faults": faults, "format": "xml"}
@@ -322,12 +329,14 @@ class C16(CheckBase):
                                  for d in case["search_path"]])
                 objs.append(ob)
             loader = self.TemplateLoader(
-                [os.path.join(root, d) for d in case["search_path"]],
+                [os.path.join(root, d) for d in case["search_path"]] +
+                (["chameleon.tests:inputs"] if case.get("pkg_path") else []),
                 default_extension=case["default_extension"],
                 auto_reload=case["auto_reload"],
                 formats={"xml": self.CountingFile,
                          "text": zt.PageTextTemplateFile})
         loaded: dict[str, Obj] = {}           # spec -> model object
+        loaded_pkg: dict[str, object] = {}
 
         # ---- model ----------------------------------------------------------
         def mtime_of(p):
@@ -561,6 +570,47 @@ class C16(CheckBase):
                         real.remove(full(op[1]))
                     del fsm[op[1]]
                 log.add("op", i, "delete", op[1])
+                continue
+            if k == "pkgload":
+                # package-relative specs (read-only: the repository's own
+                # chameleon.tests package)
+                spec = op[1]
+                from ..core import REPO_SRC
+                with world.as_proc(server):
+                    got = outcome(lambda: loader.load(
+                        spec, "text" if spec.endswith(".txt") else None))
+                    name = spec.split(":", 1)[-1].split("/")[-1]
+                    real_path = os.path.join(REPO_SRC, "chameleon", "tests",
+                                             "inputs", name)
+                    resolvable = ":" in spec or case.get("pkg_path")
+                    if not resolvable:
+                        check(i, op, got, [["exc", "ValueError"]], False)
+                        continue
+                    if got[0] != "ok":
+                        violations.append(self._v(
+                            "loader-resolution", i, op,
+                            f"package-relative load raised {got[1:3]}"))
+                        continue
+                    t = got[1]
+                    prev = loaded_pkg.get(spec)
+                    if prev is not None and prev is not t:
+                        violations.append(self._v(
+                            "loader-identity", i, op,
+                            "a different instance than the previous load "
+                            "of the same package-relative name"))
+                    loaded_pkg[spec] = t
+                    got2 = outcome(lambda: t.render())
+                    with world.harness():
+                        cls = zt.PageTextTemplateFile \
+                            if spec.endswith(".txt") else zt.PageTemplateFile
+                        want = outcome(lambda: cls(real_path).render())
+                    log.add("op", i, "pkgload", spec, got2[0])
+                    cover.add("pkgload-ok")
+                    if got2[:2] != want[:2]:
+                        violations.append(self._v(
+                            "loader-resolution", i, op,
+                            f"{spec!r} rendered {str(got2[:2])[:200]}, the "
+                            f"package's file renders {str(want[:2])[:200]}"))
                 continue
             self._arm(world, server, f)
             with world.as_proc(server):
